@@ -428,6 +428,8 @@ pub fn run_batch<P: Prop>(p: &P, opt: &Options) -> BatchResult {
     let chunk: u64 = 64;
     let executed = AtomicU64::new(0);
     let digest_sum = AtomicU64::new(0);
+    let known = KnownFindings::load(&format!("{}/known_findings.json", opt.verif_dir));
+    let known_hits = AtomicU64::new(0);
 
     std::thread::scope(|s| {
         for _ in 0..opt.threads.max(1) {
@@ -474,10 +476,21 @@ pub fn run_batch<P: Prop>(p: &P, opt: &Options) -> BatchResult {
                             executed.fetch_add(1, Ordering::Relaxed);
                             if let Err(v) = verdict {
                                 let mut f = found.lock().unwrap();
-                                f.push(Found { run, chunk_lo: lo, case, v });
-                                // keep going: several distinct findings may exist; but cap
-                                if f.len() >= 64 {
-                                    stop.store(true, Ordering::Relaxed);
+                                let is_known = known.matches(p.id(), &v.key).is_some();
+                                if is_known {
+                                    // a listed finding must not stop the search for unlisted ones:
+                                    // keep one representative per key, count the rest
+                                    known_hits.fetch_add(1, Ordering::Relaxed);
+                                    if !f.iter().any(|x| x.v.key == v.key) {
+                                        f.push(Found { run, chunk_lo: lo, case, v });
+                                    }
+                                } else {
+                                    f.push(Found { run, chunk_lo: lo, case, v });
+                                    let unknown = f.iter().filter(|x| known.matches(p.id(), &x.v.key).is_none()).count();
+                                    // keep going: several distinct findings may exist; but cap
+                                    if unknown >= 64 {
+                                        stop.store(true, Ordering::Relaxed);
+                                    }
                                 }
                             }
                         }
@@ -514,7 +527,6 @@ pub fn run_batch<P: Prop>(p: &P, opt: &Options) -> BatchResult {
     // ---- violations: group by key, smallest run first, shrink, persist, confirm
     let mut found = found.into_inner().unwrap();
     found.sort_by_key(|f| f.run);
-    let known = KnownFindings::load(&format!("{}/known_findings.json", opt.verif_dir));
     let mut seen_keys: Vec<String> = vec![];
     let mut n_viol = 0u64;
     let mut n_known = 0u64;
@@ -600,6 +612,7 @@ pub fn run_batch<P: Prop>(p: &P, opt: &Options) -> BatchResult {
 
     let wall_s = start.elapsed().as_secs_f64();
     stats.add("violations_distinct", n_viol);
+    stats.add("known_finding_occurrences", known_hits.load(Ordering::Relaxed));
     if opt.write_evidence {
         write_evidence(p, opt, &stats, runs, digest, wall_s, n_viol, n_known, samples.into_inner().unwrap());
     }
